@@ -892,10 +892,7 @@ def scipy_part(ctx: Ctx, drv):
                     if not m.startswith("ok "):
                         ctx.disagree(f"{kind} error branch", case, m, "value")
                     else:
-                        cert, body = m[3:].split(" ", 1)
-                        if cert != "1":
-                            ctx.disagree("the moments the spline model evaluates do not satisfy the defining equations NakEqs", case, cert, "1")
-                        mv = prows(body)
+                        mv = prows(m[3:])
                         r = np.asarray(call_interp(kind, x[perm], y[perm], xn), dtype=float).reshape(len(xn), dim)
                         W = np.asarray(call_interp(kind, x[perm], np.eye(n), xn), dtype=float)
                         cond = np.abs(W) @ np.abs(rows[perm])
@@ -1471,6 +1468,32 @@ def linreg_part(ctx: Ctx, drv):
             cnd = (xs_ / max(spread, 1e-300)) ** 2
             if abs(frac(sl) - ms) > frac(1e-11 * cnd * ys / max(spread, 1e-300)) or abs(frac(ic) - mi) > frac(1e-11 * cnd * ys * xs_ / max(spread, 1e-300)):
                 ctx.disagree("LinearRegression fit", case, [float(mi), float(ms)], [ic, sl])
+            # statistics of the fit vs fitStats (squares where the code takes a square root)
+            if len(t) >= 8 and len(kept) >= 3:
+                mstat = dict(zip(("rms", "r_square", "slope_sigma", "interception_sigma"), (Fraction(u) for u in t[4:8])))
+                kxs = np.asarray(lr.x, dtype=float)
+                sxx_ = float(np.sum((kxs - kxs.mean()) ** 2))
+                fl2 = (1e-8 * ys) ** 2
+                for nm_, q in mstat.items():
+                    g = float(getattr(lr, nm_))
+                    if nm_ == "r_square":
+                        sst_ = float(np.sum((np.asarray(lr.y, dtype=float) - np.mean(lr.y)) ** 2))
+                        if sst_ > 1e-6 * ys * ys and abs(frac(g) - q) > frac(1e-7 + fl2 * len(kept) / sst_ * cnd):
+                            ctx.disagree("LinearRegression.r_square", case, float(q), g)
+                        continue
+                    slack = fl2 * cnd * {"rms": 1.0, "slope_sigma": 1.0 / max(sxx_, 1e-300), "interception_sigma": 1.0 + float(kxs.mean()) ** 2 / max(sxx_, 1e-300)}[nm_]
+                    if abs(frac(g) ** 2 - q) > Fraction(1, 10**7) * q + frac(slack):
+                        ctx.disagree(f"LinearRegression.{nm_}", case, math.sqrt(float(q)), g)
+                ctx.count("linreg:statistics-vs-model")
+            # ---- oracle: r_square does not change under an affine rescaling of y (theorem linreg_r_square_affine_invariant)
+            if not reject and not exact and len(x) >= 4:
+                al, be = rng.uniform(-100, 100), rng.choice([-1, 1]) * 10 ** rng.uniform(-2, 2)
+                try:
+                    r0, r1 = float(lr.r_square), float(LinearRegression(x.copy(), al + be * y).r_square)
+                    if 1 - r0 > 1e-6 and abs(r1 - r0) > 1e-7:
+                        V(ctx, "linreg:r_square-affine", f"r_square changes from {r0!r} to {r1!r} when y is replaced by {al!r} + {be!r} * y", {**case, "alpha": al, "beta": be})
+                except Exception as e:  # noqa
+                    V(ctx, f"linreg:r_square-affine:raises:{type(e).__name__}", f"LinearRegression on rescaled y raised {e}", case)
 
 
 def borderline(x, y, factor, it) -> bool:
@@ -1501,7 +1524,7 @@ def run(ctx: Ctx):
     ctx.proof = common.prove("C20")
     if ctx.thorough and ctx.proof.ok:
         mods = ["Midgard.Props.C20", "Midgard.Proofs.C20Lagrange", "Midgard.Proofs.C20Dop", "Midgard.Proofs.C20Algebra",
-                "Midgard.Proofs.C20Deriv", "Midgard.Proofs.C20Bary", "Midgard.Proofs.C20Nputil", "Midgard.Proofs.C20Spherical", "Midgard.Proofs.C20Spline",
+                "Midgard.Proofs.C20Deriv", "Midgard.Proofs.C20Bary", "Midgard.Proofs.C20Nputil", "Midgard.Proofs.C20Spherical", "Midgard.Proofs.C20Spline", "Midgard.Proofs.C20Stats",
                 "Midgard.Model.Numeric", "Midgard.Spec.UnitsSI", "Midgard.Generated.C20Tables"]
         import subprocess
         with common.lake_lock():
